@@ -13,7 +13,8 @@ CFG = dict(
          "Close+Open, snapshots (requested ts, renewal period elapsed or not), Get/GetBetween/History/GetWithPrefix/Ts on "
          "the tree and on open snapshots, Readers with every combination of seek/end/prefix/inclusiveness/direction/"
          "offset in the three modes (latest, history, ReadBetween) partly read later or concurrently with the writer, "
-         "HistoryReaders; profiles mixed / deep (minimal nodes) / adversarial / rollback; a case is non-trivial when "
+         "HistoryReaders; two fixed probe cases first (the inputs of the repaired defects e30fc04 and 18b7c7d); profiles mixed / "
+         "deep (minimal nodes) / adversarial / rollback (half of them right after a restart); a case is non-trivial when "
          "the tree held at least 2 keys and at least 5 operations ran; distinct by the whole recorded sequence",
     trusted_base=COMMON_TB + [
         "modelled (coq/Index/BTree.v, TBState.v): leaf/inner nodes, both binary searches, updateOnInsert rules, batch "
@@ -29,8 +30,7 @@ CFG = dict(
     assumptions=[
         "theorem premises: MaxNodeSize >= requiredNodeSize(MaxKeySize, MaxValueSize) (cfg_ok, enforced by Options.Validate); "
         "keys handed to BulkInsert are byte strings (ops_bytes_ok, always true of Go []byte) for the declarative reader "
-        "spec; GetBetween/ReadBetween are covered only when the key has a version not newer than finalTs (or finalTs = 0, "
-        "empty window, absent key) and history counts are below 2^64 (between_ok/mode_ok) -- otherwise see the known finding",
+        "spec; counts (history count, offsets) fit uint64",
         "node timestamps (Ts(), the ts a snapshot reports) are compared by the correspondence run and the Go oracle on every "
         "case but are related to the map by theorems only through snapshot_not_older_than_requested",
         "each critical section of tbtree (rwmutex) executes atomically as one model step; concurrent readers on snapshots "
